@@ -7,6 +7,7 @@ to enable fine-grained incremental reprocessing of changes.
 from __future__ import annotations
 
 import argparse
+import inspect
 import io
 import json
 import os
@@ -292,8 +293,12 @@ class Server:
         else:
             if command not in {"check", "recheck", "run"}:
                 # Only the above commands use some error formatting.
-                del data["is_tty"]
-                del data["terminal_width"]
+                data.pop("is_tty", None)
+                data.pop("terminal_width", None)
+            try:
+                inspect.signature(method).bind(self, **data)
+            except TypeError as err:
+                return {"error": f"Invalid arguments for command '{command}': {err}"}
             ret = method(self, **data)
             assert isinstance(ret, dict)
             return ret
@@ -368,6 +373,8 @@ class Server:
         self, files: Sequence[str], export_types: bool, is_tty: bool, terminal_width: int
     ) -> dict[str, object]:
         """Check a list of files."""
+        if not isinstance(files, list) or not all(isinstance(f, str) for f in files):
+            return {"error": "Invalid arguments for command 'check': files must be a list of strings"}
         try:
             sources = create_source_list(files, self.options, self.fscache)
         except InvalidSourceList as err:
